@@ -255,3 +255,17 @@ def search(ctx):
                            f"reconcile_thl returns minimum {v0} with {len(s0)} optimal solutions; the true minimum is {m} with {len(opt)}")
     ctx.notes.append(f"failing-input search: {n} fresh inputs, none violates the property")
     return None
+
+
+def replay_case(payload):
+    """search findings: reconcile_thl's minimum and ALL set against the independent dynamic programme"""
+    from . import c09
+    case = payload["case"]
+    try:
+        v0, s0 = c09.thl_result(case)
+    except Exception as e:  # noqa: BLE001
+        return False, f"reconcile_thl raised {type(e).__name__}", {"error": type(e).__name__}
+    m, opt = R.Oracle(case["S"]).best(case["O"], case["costs"])
+    got = float("inf") if v0 == R.INF else v0
+    ok = got == m and {json.dumps(x) for x in s0} == opt
+    return ok, f"reconcile_thl returns minimum {v0} with {len(s0)} optimal solutions; the true minimum is {m} with {len(opt)}", [v0, s0]
